@@ -5,6 +5,9 @@ open Wz
 
 /-! ### decimal integers -/
 
+theorem catching_ok {α : Type} (cl : List String) (a : α) (h : α) :
+    catching cl (Except.ok a) h = .ok a := rfl
+
 theorem plainDigit_tbl : Gen.Http.plainIntHigh = false ∧
     ∀ n, n < 256 → tbl Gen.Http.plainIntDigit n = (decide (48 ≤ n) && decide (n ≤ 57)) := by
   refine ⟨by decide, ?_⟩
